@@ -24,6 +24,15 @@ var textWords = strings.Fields("the quick brown fox jumps over the lazy dog whil
 
 func genContent(size int, dist string, seed uint64) []byte {
 	b := make([]byte, size)
+	if strings.HasPrefix(dist, "marker:") {
+		// English-like text (compressible) with a unique marker planted in it
+		b = genContent(size, "text", seed)
+		m := []byte(strings.TrimPrefix(dist, "marker:"))
+		if size >= len(m) {
+			copy(b[(size-len(m))/3:], m)
+		}
+		return b
+	}
 	switch dist {
 	case "zeros":
 	case "text":
